@@ -41,9 +41,16 @@ try:
             open(os.path.join(tmpd, "demo.sh"), "w").write(txt)
             r = sh("sh demo.sh", cwd=tmpd, timeout=900); shutil.rmtree(tmpd, ignore_errors=True); return r
         exe = "/tmp/seeddemo_%s_%s" % (name, tag)
-        srcs = "%s %s/lib/params/params.cpp %s/lib/prng/fastrandombytes.cpp %s/lib/prng/randombytes.cpp %s/lib/prng/nfl_crypto_stream_salsa20_amd64_xmm6.s" % (demo, wt, wt, wt, wt)
-        if "own randombytes" in head or "NO_PRNG_LINK" in head:
-            srcs = "%s %s/lib/params/params.cpp" % (demo, wt)
+        # link exactly the library sources the demo's own compile line mentions (demos that supply their own
+        # nfl::randombytes / nfl::fastrandombytes leave the corresponding file out)
+        hl = head.replace("\\\n", " ")
+        mentions = lambda f: (f in hl)
+        parts = [demo]
+        if mentions("params.cpp") or "g++" not in hl: parts.append("%s/lib/params/params.cpp" % wt)
+        if mentions("fastrandombytes.cpp") or "g++" not in hl: parts.append("%s/lib/prng/fastrandombytes.cpp" % wt)
+        if re.search(r"(?<!fast)randombytes\.cpp", hl) or "g++" not in hl: parts.append("%s/lib/prng/randombytes.cpp" % wt)
+        if mentions("salsa20_amd64_xmm6.s") or "g++" not in hl: parts.append("%s/lib/prng/nfl_crypto_stream_salsa20_amd64_xmm6.s" % wt)
+        srcs = " ".join(parts)
         cmd = "g++ -std=c++11 -O1 -w %s -I%s/include -I%s/include/nfl -I%s/include/nfl/prng -I%s/tests %s -lgmpxx -lgmp -lmpfr -o %s" % (" ".join(flags), wt, wt, wt, wt, srcs, exe)
         rc, out = sh(cmd, timeout=600)
         if rc != 0: return -99, "COMPILE FAILED: " + out[-1500:]
